@@ -104,7 +104,12 @@ func c06clock() {
 	}
 }
 
-func c06HandleRequest(maxLen int) {
+func c06HandleRequest(maxLen int) { c06Handle(maxLen, false) }
+
+// full = true: the client's record is at capacity and the packet's receive stamp collides with nothing
+// on record (the uniqueness loop makes exactly one pass: checked by its unwinding obligation), which
+// keeps the capacity case - replacement of the oldest exchange - cheap enough for the quick tier
+func c06Handle(maxLen int, full bool) {
 	c06clock()
 	id, other := v.String("client"), v.String("other")
 	v.Assume(id != other)
@@ -119,6 +124,13 @@ func c06HandleRequest(maxLen int) {
 	v.Havoc("req", &req)
 	rxt0 := c06time("rxt")
 	rxt := rxt0
+	if full {
+		v.Assume(present && before.len == maxLen)
+		r0 := ntp.Time64FromTime(rxt0)
+		for i := 0; i < maxLen; i++ {
+			v.Assume(before.buf[i].rxt != r0)
+		}
+	}
 	var txt time.Time
 	handleRequest(id, &req, &rxt, &txt, &resp)
 
@@ -188,9 +200,10 @@ func c06HandleRequest(maxLen int) {
 	v.Reach("C06.handle")
 }
 
-func VerifC06Handle2() { c06HandleRequest(2) }
-func VerifC06Handle4() { c06HandleRequest(4) }
-func VerifC06Handle8() { c06HandleRequest(8) }
+func VerifC06Handle2()    { c06HandleRequest(2) }
+func VerifC06Handle4()    { c06HandleRequest(4) }
+func VerifC06Handle8()    { c06HandleRequest(8) }
+func VerifC06HandleFull() { c06Handle(tssItemCap, true) }
 
 // updateTXTimestamp from an arbitrary record: the kernel transmit stamp replaces the software one;
 // an exchange whose software stamp is passed back unchanged (no kernel stamp) is dropped
